@@ -122,8 +122,20 @@ func (sr *StyleResolver) Resolve(styleID string) *ResolvedStyle {
 		}
 	}
 
-	// Detect heading
-	resolved.IsHeading, resolved.HeadingLevel = sr.detectHeading(styleDef, resolved)
+	// Detect heading: the style itself or, failing that, the nearest style it is
+	// based on - Word inherits the outline level through basedOn, so a custom style
+	// derived from "Heading 2" is a level-2 heading. A style that explicitly sets the
+	// body-text outline level (9) ends the search.
+	for i := len(chain) - 1; i >= 0 && !resolved.IsHeading; i-- {
+		def, ok := sr.styles[chain[i]]
+		if !ok {
+			continue
+		}
+		resolved.IsHeading, resolved.HeadingLevel = sr.detectHeading(def, resolved)
+		if lvl := def.PPr.OutlineLvl.Val; lvl != "" && parseOutlineLevel(lvl) < 0 {
+			break
+		}
+	}
 
 	// Cache and return
 	sr.resolved[styleID] = resolved
